@@ -85,7 +85,8 @@ def build(spec):
         kw = {kk: spec[kk] for kk in ('physical', 'updatable') if kk in spec}
         return getattr(vform, spec['fn'])(spec['dim'], **kw)
     dim = spec['dim']
-    V = VForm(dim, geo_dim=(dim + 1 if spec['surface'] else None), boundary=spec['boundary'], arity=spec['arity'])
+    V = VForm(dim, geo_dim=(dim + 1 if spec['surface'] else None), boundary=spec['boundary'], arity=spec['arity'],
+              spacetime=bool(spec.get('st')))
     comps = spec['comps']
     nc = (comps, comps) if comps else (None, None)
     bfs = V.basisfuns(components=nc, spaces=tuple(spec['spaces']))
@@ -106,7 +107,7 @@ def build(spec):
     if spec.get('mat_kind'):
         # one entry of a non-square matrix-valued parameter / input field
         shp = tuple(spec.get('mat_shape', [2, 3]))
-        Bm = V.parameter('B', shape=shp) if spec['mat_kind'] == 'param' else V.input('G', shape=shp)
+        Bm = V.parameter('Bm', shape=shp) if spec['mat_kind'] == 'param' else V.input('G', shape=shp)
         i, j = spec['mat_ij']
         coef = coef * Bm[i, j]
 
@@ -122,6 +123,11 @@ def build(spec):
     else:
         main = D(u) * v if u is not None else D(v)
         second = inner(grad(u), grad(v)) if u is not None else v.dx(0)
+        if spec.get('let') and u is not None and not spec['boundary'] and not spec['surface']:
+            # a named (let) matrix variable, stored symmetrically or not
+            from pyiga.vform import dot
+            Bv = V.let(spec['let']['name'], dot(V.JacInv, V.JacInv.T), symmetric=spec['let']['sym'])
+            second = Bv.dot(grad(u, parametric=True)).dot(grad(v, parametric=True))
     meas = {'dx': dx, 'ds': ds, 'none': None}[spec['meas']]
 
     def M(e):
@@ -145,6 +151,7 @@ def base_spec(s):
             'spaces': [0, 0],
             'c': s.pick([2.0, 3.0, 0.5, 1e-13]), 'fn': fn, 'in_shape': s.pick([[], [], [2]]), 'phys': bool(s.choice(2)), 'upd': False,
             'in_deriv': False, 'in_comp': 0, 'vop': s.pick(['', '', '+']),
+            'let': s.pick([None, None, {'name': 'B', 'sym': True}, {'name': 'B', 'sym': False}]), 'st': False,
             'mat_kind': s.pick(['', '', '', 'param', 'input']), 'mat_shape': s.pick([[2, 3], [3, 2], [2, 2]]),
             'mat_ij': [s.choice(2), s.choice(2)],
             'par': bool(s.choice(2)), 'dax': s.choice(dim), 'dtimes': 0 if comps else s.choice(3), 'dpara': False,
@@ -174,12 +181,14 @@ def mutations(spec):
     if spec['comps'] and spec['arity'] == 2:
         mut('vector-operator', vop={'': '+', '+': '-', '-': '+'}[spec.get('vop', '')])
     if spec['fn']:
-        mut('input-derivative', in_deriv=not spec.get('in_deriv', False))
+        if not spec['phys']:
+            mut('input-derivative', in_deriv=not spec.get('in_deriv', False))
         if spec['in_shape']:
             mut('input-component', in_comp=1 - spec.get('in_comp', 0))
         mut('shape', in_shape=([2] if not spec['in_shape'] else []))
         mut('updatable', upd=not spec['upd'])
-        mut('physical', phys=not spec['phys'])
+        if not spec.get('in_deriv'):
+            mut('physical', phys=not spec['phys'])
     if not spec['comps']:
         if spec['dtimes']:
             if spec['dim'] > 1:
@@ -205,6 +214,11 @@ def mutations(spec):
     if spec['comps'] and spec['dim'] == 3:
         mut('component-count', comps=(2 if spec['comps'] == 3 else 3))
     mut('parameter', par=not spec['par'])
+    if spec.get('let') and spec['op']:
+        mut('let-symmetric', let=dict(spec['let'], sym=not spec['let']['sym']))
+        mut('let-name', let=dict(spec['let'], name={'B': 'C', 'C': 'B'}[spec['let']['name']]))
+    if spec['dim'] >= 2 and spec['op'] and not spec['comps']:
+        mut('spacetime', st=not spec.get('st', False))
     if spec.get('mat_kind'):
         shp = spec.get('mat_shape', [2, 3])
         for i in range(shp[0]):
